@@ -184,7 +184,7 @@ func c16(c *Ctx) {
 	c.NeverAfter(sc+"serve", c.Edge(limit), Union(Calls(pffr), Calls(sc+"writeFrame"), Calls(sc+"wroteFrame")), true)
 	c.OnEveryCycle(sc+"serve", Calls(pffr), c.Tests(limit))
 	c.OnEveryCycle(sc+"serve", Calls(sc+"writeFrame").Where("request received from a channel", func(in ssa.Instruction) bool {
-		return strings.HasPrefix(Term(in.(*ssa.Call).Call.Args[1]), "select#")
+		return strings.HasPrefix(Term(BaselineArgs(&in.(*ssa.Call).Call)[1]), "select#")
 	}), c.Tests(limit))
 	c.Writers(qcf, sc+"writeFrame", sc+"scheduleFrameWrite")
 	wf := sc + "writeFrame"
@@ -301,7 +301,7 @@ func pipeBufferIsDataBuffer(c *Ctx) {
 						idx = i
 					}
 				}
-				if idx < 0 || idx >= len(ci.Common().Args) || !isDB(ci.Common().Args[idx]) {
+				if idx < 0 || idx >= len(BaselineArgs(ci.Common())) || !isDB(BaselineArgs(ci.Common())[idx]) {
 					good = false
 				}
 			}
